@@ -288,7 +288,9 @@ class SubscriptionModel:
             return {"v": "drop"}
         hs = list(self.table[subid])
         if not hs:
-            return {"v": "either"}            # UNSUBSCRIBE was refused: no handler to call
+            # UNSUBSCRIBE was refused: the session still holds the subscription (the router keeps
+            # sending), there is just no handler to call - not an id "the session never held"
+            return {"v": "drop"}
         return {"v": "deliver", "handlers": hs}
 
 
